@@ -647,6 +647,7 @@ _SKIP_CLASS_ATTRS = {
     "__dict__", "__weakref__", "__doc__", "__module__", "_abc_impl",
     "__abstractmethods__", "__annotations__", "__parameters__", "__orig_bases__",
     "__firstlineno__", "__static_attributes__", "__qualname__",
+    "__slotnames__",          # cache that copyreg sets on a class when an instance is copied
 }
 _SKIP_MODULE_ATTRS = {
     "__builtins__", "__cached__", "__loader__", "__spec__", "__file__", "__path__",
